@@ -567,3 +567,63 @@ LEVEL_NOTE = ("NOT proved, validated by execution only: convergence of the Charn
               "change. No rounding-error bound. Trusted: Coq kernel, extraction, numba, harness tolerances; axioms: standard-library reals + classic.")
 TECHNIQUE = "Coq proof (definitional laws, loop invariants by induction, exact-root monotonicity, bracket invariant + IVT) + extracted-model correspondence + residual oracles"
 DESIGN_REF = "DESIGN.md section 5 C10"
+
+
+def replay(ctx, obj):
+    """re-run one recorded input on the implementation under test (and the model where it applies)"""
+    inp = obj.get("input") or {}
+    op = inp.get("op")
+    if op == "charnock_roughness_length_from_u10":
+        Us = inp["U"]; form = inp.get("form", "ndarray")
+        alpha = inp.get("charnock_constant"); visc = inp.get("viscous_constant"); maxit = inp.get("max_iter")
+        c = {"op": "charnock", "form": form, "U": [C.fx(v) for v in Us]}
+        if inp.get("shape"):
+            c["shape"] = inp["shape"]
+        if alpha is not None:
+            c["alpha"] = C.fx(alpha)
+        if visc is not None:
+            c["visc"] = C.fx(visc)
+        if maxit:
+            c["maxit"] = maxit
+        a_ = 0.012 if alpha is None else alpha; v_ = 0.0 if visc is None else visc
+        im = ctx.impl("C10.py", {"cases": [c]})["results"][0]
+        if form in ("scalar", "np_scalar", "0d"):
+            mz = [C.unfx(ctx.model(["charnock %s 100 1 %s" % (par_tokens(a_, v_), C.fx(u))])[0][1]) for u in Us]
+        else:
+            r = ctx.model(["charnock %s %d %s" % (par_tokens(a_, v_), maxit or 100, C.flist(Us))])[0]
+            mz = [C.unfx(v) for v in r[1:1 + int(r[0])]]
+        print("implementation:", im if "error" in im else [C.unfx(v) for v in im["z"]])
+        print("model         :", mz)
+        if "error" in im:
+            ctx.oracle_fail("raised %s: %s" % (im["error"], im["msg"]), inp, key="roughness.charnock:%s-raises" % form); return
+        iz = [C.unfx(v) for v in im["z"]]
+        for j, u in enumerate(Us):
+            ctx.count(["replay", u])
+            z = iz[j]
+            if math.isnan(u):
+                if not math.isnan(z):
+                    ctx.oracle_fail("missing wind speed gives roughness %r" % z, inp)
+            elif not maxit and not (z > 0 and math.isfinite(z)):
+                ctx.oracle_fail("roughness %r for U=%r is not a positive length" % (z, u), inp)
+            elif not maxit and abs(z - G_py(a_, v_, u, z)) > ATOL * max(z, ATOL) * (1 + 1e-6):
+                ctx.oracle_fail("|z0 - G(z0)| = %.3e > %.3e at U=%r" % (abs(z - G_py(a_, v_, u, z)), ATOL * max(z, ATOL), u), inp)
+            elif not C.close(z, mz[j], 1e-9, 1e-300):
+                ctx.disagree("U=%r: implementation %r, modelled solver %r" % (u, z, mz[j]), inp)
+    elif op == "numba_newton_raphson":
+        cfg = inp["config"]; a, b, c_ = inp["args"]; hlo, hhi = inp["hard_bounds"]
+        cc = {"op": "newton", "id": inp["function_id"], "a": C.fx(a), "b": C.fx(b), "c": C.fx(c_), "guess": C.fx(inp["guess"]),
+              "hlo": C.fx(hlo), "hhi": C.fx(hhi)}
+        cc.update({kk: (C.fx(v) if isinstance(v, float) else v) for kk, v in cfg.items()})
+        im = ctx.impl("C10.py", {"cases": [cc]})["results"][0]
+        r = ctx.model(["newton %d %s %s %s %s %s %s %d %s %s %s %s %s %s %s" % (
+            inp["function_id"], C.fx(a), C.fx(b), C.fx(c_), C.fx(inp["guess"]), C.fx(hlo), C.fx(hhi), cfg["maxit"],
+            "T" if cfg["aitken"] else "F", C.fx(cfg["atol"]), C.fx(cfg["rtol"]), C.fx(cfg["h"]), "T" if cfg["relstep"] else "F",
+            C.fx(cfg["relax"]), "T" if cfg["eom"] else "F")])[0]
+        print("implementation:", {k: (v if k != "trace" else [C.unfx(t) for t in v]) for k, v in im.items()})
+        print("model         :", r[0], r[1], "evaluated at", [C.unfx(v) for v in r[6:]])
+        ctx.count("replay")
+        mtr = [C.unfx(v) for v in r[6:]]; itr = [C.unfx(v) for v in im.get("trace", [])]
+        if len(mtr) != len(itr) or any(not C.close(u, v, 1e-9, 1e-12) for u, v in zip(itr, mtr)):
+            ctx.disagree("numba_newton_raphson departs from the modelled solver", inp)
+    else:
+        print("replay: op %r is replayed by re-running ./check C10 with VERIF_SEED=%r (the check is deterministic per seed)" % (op, obj.get("seed")))
